@@ -297,6 +297,8 @@ type File struct {
 	rd      *Reader
 	wr      *Sink
 	written int
+	woff    int  // write offset
+	app     bool // O_APPEND
 	closed  bool
 	real    *os.File
 }
@@ -312,6 +314,21 @@ func (f *File) Read(p []byte) (int, error) {
 		return 0, syscall.EBADF
 	}
 	return f.rd.Read(p)
+}
+
+// store puts b at the file's write offset (overwriting, then extending).
+func (f *File) store(b []byte) {
+	if f.app {
+		f.woff = len(f.node.Data)
+	}
+	for i := 0; i < len(b); i++ {
+		if f.woff < len(f.node.Data) {
+			f.node.Data[f.woff] = b[i]
+		} else {
+			f.node.Data = append(f.node.Data, b[i])
+		}
+		f.woff++
+	}
 }
 
 func (f *File) Write(p []byte) (int, error) {
@@ -334,7 +351,7 @@ func (f *File) Write(p []byte) (int, error) {
 		if take > len(p) {
 			take = len(p)
 		}
-		f.node.Data = append(f.node.Data, p[:take]...)
+		f.store(p[:take])
 		f.written += take
 		W.Stat("fault.crash-in-write")
 		W.Event("crash in write %s after %d bytes", f.name, f.written)
@@ -342,7 +359,7 @@ func (f *File) Write(p []byte) (int, error) {
 	}
 	before := len(f.wr.Data)
 	n, err := f.wr.Write(p)
-	f.node.Data = append(f.node.Data, f.wr.Data[before:]...)
+	f.store(f.wr.Data[before:])
 	f.wr.Data = f.wr.Data[:0]
 	f.written += n
 	return n, err
@@ -482,8 +499,8 @@ func OpenFile(name string, flag int, perm os.FileMode) (*File, error) {
 	if flag&os.O_TRUNC != 0 || node == nil {
 		return Create(name)
 	}
-	W.Event("openfile %s", name)
-	return &File{name: name, node: node, wr: &Sink{Name: name, Faults: d.WritePlan[name]}}, nil
+	W.Event("openfile %s flag=%#x", name, flag)
+	return &File{name: name, node: node, wr: &Sink{Name: name, Faults: d.WritePlan[name]}, app: flag&os.O_APPEND != 0}, nil
 }
 
 // Stat replaces os.Stat / os.Lstat.
